@@ -213,7 +213,8 @@ async fn run_all(inp: &str, outp: &str) -> Result<Value, String> {
         let decoy = |k: u64| {
             scylla::client::execution_profile::ExecutionProfile::builder()
                 .consistency(if k == 0 { scylla::statement::Consistency::All } else { scylla::statement::Consistency::Three })
-                .serial_consistency(if k == 0 { Some(SerialConsistency::LocalSerial) } else { None })
+                // (both decoys name a serial consistency: a statement that says "none" explicitly must beat them too)
+                .serial_consistency(if k == 0 { Some(SerialConsistency::LocalSerial) } else { Some(SerialConsistency::Serial) })
                 .build()
         };
         let wanted_profile = scylla::client::execution_profile::ExecutionProfile::builder().consistency(cl).serial_consistency(serial).build();
